@@ -52,6 +52,7 @@ void park(int t) {
     SH->status = status;
     snprintf(SH->note, sizeof SH->note, "%s", why);
   }
+  fprintf(stderr, "scheduler: %s\n", why);
   _exit(status == 2 ? 72 : 73);
 }
 
